@@ -17,6 +17,8 @@ package dispute
 
 // Expiry of unfunded disputes and tally of ended voting rounds. A voting round has a vote record and the snapshot
 // (BlockInfo) of its dispute hash; with those in place and the module parameters set, the begin blocker does not fail.
+// expired_prevote(ctx, i): dispute i was open, still unfunded (prevote) and past its end time when the block began.
+//@ define expired_prevote(c, i) = old(has(dispute.Disputes, i)) && old(dispute.Disputes[i].Open) && old(dispute.Disputes[i].DisputeStatus) == types.Prevote && blocktime(c) > old(dispute.Disputes[i].DisputeEndTime)
 //@ func CheckOpenDisputesForExpiration(ctx, k) (err)
 //@ requires [voting_rounds_have_a_vote_and_a_snapshot] forall i int :: has(dispute.Disputes, i) && dispute.Disputes[i].DisputeStatus == types.Voting ==> has(dispute.Votes, i) && has(dispute.BlockInfo, bytes(dispute.Disputes[i].HashId))
 //@ requires [snapshot_totals_non_negative] forall h bytes :: has(dispute.BlockInfo, h) ==> dispute.BlockInfo[h].TotalReporterPower >= 0 && dispute.BlockInfo[h].TotalUserTips >= 0
@@ -24,5 +26,13 @@ package dispute
 //@ requires [parameters_set] has(dispute.Params)
 //@ modifies dispute.Disputes, dispute.Votes, H_*, A_*
 //@ ensures [expiry_and_tally_do_not_fail] err == nil
+//@ ensures [an_unfunded_dispute_past_its_end_time_fails_and_closes] forall i int :: expired_prevote(ctx, i) ==> dispute.Disputes[i].DisputeStatus == types.Failed && !dispute.Disputes[i].Open
+//@ ensures [an_unfunded_dispute_within_its_time_is_untouched] forall i int :: old(dispute.Disputes[i].DisputeStatus) == types.Prevote && blocktime(ctx) <= old(dispute.Disputes[i].DisputeEndTime) ==> dispute.Disputes[i] == old(dispute.Disputes[i])
+//@ ensures [closed_disputes_are_untouched] forall i int :: !old(dispute.Disputes[i].Open) ==> dispute.Disputes[i] == old(dispute.Disputes[i])
+//@ ensures [no_dispute_appears_or_disappears] forall i int :: has(dispute.Disputes, i) <==> old(has(dispute.Disputes, i))
 //@ loop 0 "for ; iter.Valid(); iter.Next()"
 //@ loop 0 invariant [disputes_still_to_visit_are_as_on_entry] forall j in [itpos(iter), itlen(iter)) :: has(dispute.Disputes, itkey(iter, j)) && dispute.Disputes[itkey(iter, j)] == old(dispute.Disputes[itkey(iter, j)]) && (has(dispute.Votes, itkey(iter, j)) <==> old(has(dispute.Votes, itkey(iter, j)))) && dispute.Votes[itkey(iter, j)] == old(dispute.Votes[itkey(iter, j)])
+//@ loop 0 invariant [visited_expired_disputes_have_failed] forall j in [0, itpos(iter)) :: expired_prevote(ctx, itkey(iter, j)) ==> dispute.Disputes[itkey(iter, j)].DisputeStatus == types.Failed && !dispute.Disputes[itkey(iter, j)].Open
+//@ loop 0 invariant [an_unfunded_dispute_within_its_time_is_untouched] forall i int :: old(dispute.Disputes[i].DisputeStatus) == types.Prevote && blocktime(ctx) <= old(dispute.Disputes[i].DisputeEndTime) ==> dispute.Disputes[i] == old(dispute.Disputes[i])
+//@ loop 0 invariant [closed_disputes_are_untouched] forall i int :: !old(dispute.Disputes[i].Open) ==> dispute.Disputes[i] == old(dispute.Disputes[i])
+//@ loop 0 invariant [no_dispute_appears_or_disappears] forall i int :: has(dispute.Disputes, i) <==> old(has(dispute.Disputes, i))
